@@ -99,69 +99,99 @@ class Ctx(object):
             )
         self.violations.append({"kind": "model", "clause": ",".join(r.violated) or "deadlock", "replay": path})
 
-    def validate(self, spec_dir, module, cfg, traces, name=None, cases=None, timeout=3600, heap="8g", env=None):
+    def validate(self, spec_dir, module, cfg, traces, name=None, cases=None, timeout=3600, heap="4g", env=None,
+                 workers=1, chunk=2500, procs=None):
         """Trace validation: returns per-trace verdict list [('ACCEPT',)|('FAIL', l, clause, key)].
-        FAILs become VIOLATION / KNOWN-FINDING here; DRIFT is counted."""
+        FAILs become VIOLATION / KNOWN-FINDING here; DRIFT is counted.  Large batches are split into chunks,
+        each decided by its own TLC process (single worker: the printed verdict tuples stay line-atomic)."""
         if not traces:
             return []
+        if procs is None:
+            procs = int(os.environ.get("VERIF_TRACE_PROCS", "6"))
+        parts = [(k, traces[k : k + chunk]) for k in range(0, len(traces), chunk)]
+        results = {}
+
+        def work(part):
+            k, ts = part
+            return k, self._validate_chunk(spec_dir, module, cfg, ts, k, timeout, heap, env, workers)
+
+        if len(parts) == 1:
+            k, res = work(parts[0])
+            results[k] = res
+        else:
+            from concurrent.futures import ThreadPoolExecutor
+
+            with ThreadPoolExecutor(max_workers=procs) as ex:
+                for k, res in ex.map(work, parts):
+                    results[k] = res
+        verdicts = []
+        for k, ts in parts:
+            r, acc, fail, drift = results[k]
+            if r.violated or r.deadlock:
+                # invariants of a trace spec are P-clauses evaluated on observed states
+                self.model_violation(module, cfg, r)
+            for c, n in drift.items():
+                self.drift[c] = self.drift.get(c, 0) + n
+            vs = []
+            for i in range(1, len(ts) + 1):
+                if i in fail and i in acc:
+                    raise T.MachineryError("trace %d of %s/%s both accepted and rejected" % (k + i, module, cfg))
+                if i in fail:
+                    vs.append(("FAIL",) + fail[i])
+                elif i in acc:
+                    vs.append(("ACCEPT",))
+                else:
+                    raise T.MachineryError(
+                        "trace %d of %s/%s neither accepted nor rejected with a named clause\n%s"
+                        % (k + i, module, cfg, "\n".join(r.lines[-25:]))
+                    )
+            self.traces += len(ts)
+            self.states += r.distinct
+            self.transitions += r.generated
+            self.runs.append(
+                {
+                    "run": name or (module + "/" + cfg),
+                    "mode": "trace-validation",
+                    "traces": len(ts),
+                    "events": sum(len(t) for t in ts),
+                    "states": r.distinct,
+                    "accepted": len([v for v in vs if v[0] == "ACCEPT"]),
+                    "rejected": len([v for v in vs if v[0] == "FAIL"]),
+                    "wall_s": round(r.wall, 1),
+                }
+            )
+            for i, v in enumerate(vs):
+                if v[0] == "FAIL":
+                    self._fail(module, cfg, ts[i], v, cases[k + i] if cases else None)
+            verdicts += vs
+        return verdicts
+
+    def _validate_chunk(self, spec_dir, module, cfg, traces, k, timeout, heap, env, workers):
         os.makedirs(T.WORK, exist_ok=True)
-        tf = os.path.join(T.WORK, "trace_%s_%d_%d.json" % (self.pid, os.getpid(), len(self.runs)))
+        tf = os.path.join(T.WORK, "trace_%s_%d_%d_%d.json" % (self.pid, os.getpid(), len(self.runs), k))
         with open(tf, "w") as f:
             json.dump(traces, f)
         e = {"TRACE_FILE": tf}
         if env:
             e.update(env)
         try:
-            r = _run(spec_dir, module, cfg, workers=1, env=e, timeout=timeout, heap=heap)
+            r = _run(spec_dir, module, cfg, workers=workers, env=e, timeout=timeout, heap=heap)
         finally:
             try:
                 os.unlink(tf)
             except OSError:
                 pass
-        if r.violated or r.deadlock:
-            # invariants of a trace spec are P-clauses evaluated on observed states
-            self.model_violation(module, cfg, r)
         acc = set()
         fail = {}
+        drift = {}
         for tag, a in T.tuples(r, ("ACCEPT", "FAIL", "DRIFT")):
             if tag == "ACCEPT":
                 acc.add(a[0])
             elif tag == "FAIL":
                 fail.setdefault(a[0], (a[1], a[2], a[3] if len(a) > 3 else ""))
             elif tag == "DRIFT":
-                self.drift[a[2]] = self.drift.get(a[2], 0) + 1
-        verdicts = []
-        for i in range(1, len(traces) + 1):
-            if i in fail and i in acc:
-                raise T.MachineryError("trace %d of %s/%s both accepted and rejected" % (i, module, cfg))
-            if i in fail:
-                verdicts.append(("FAIL",) + fail[i])
-            elif i in acc:
-                verdicts.append(("ACCEPT",))
-            else:
-                raise T.MachineryError(
-                    "trace %d of %s/%s neither accepted nor rejected with a named clause\n%s"
-                    % (i, module, cfg, "\n".join(r.lines[-25:]))
-                )
-        self.traces += len(traces)
-        self.states += r.distinct
-        self.transitions += r.generated
-        self.runs.append(
-            {
-                "run": name or (module + "/" + cfg),
-                "mode": "trace-validation",
-                "traces": len(traces),
-                "events": sum(len(t) for t in traces),
-                "states": r.distinct,
-                "accepted": len(acc - set(fail)),
-                "rejected": len([v for v in verdicts if v[0] == "FAIL"]),
-                "wall_s": round(r.wall, 1),
-            }
-        )
-        for i, v in enumerate(verdicts):
-            if v[0] == "FAIL":
-                self._fail(module, cfg, traces[i], v, cases[i] if cases else None)
-        return verdicts
+                drift[a[2]] = drift.get(a[2], 0) + 1
+        return r, acc, fail, drift
 
     def _fail(self, module, cfg, trace, v, case):
         _, l, clause, key = v
